@@ -1,0 +1,60 @@
+//! Verification hooks (compiled only with `--cfg ckb_verif`): a stand-alone indexer over its
+//! own store, driven block by block exactly as the sync service drives it (`append` /
+//! `rollback`), with the public query handle and a raw key-value dump.
+use crate::indexer::Indexer;
+use crate::service::IndexerHandle;
+use crate::store::{IteratorDirection, RocksdbStore, Store};
+use ckb_indexer_sync::{CustomFilters, Error, IndexerSync};
+use ckb_types::core::{BlockNumber, BlockView};
+use ckb_types::packed::Byte32;
+use std::path::Path;
+
+/// A stand-alone indexer.
+pub struct VerifIndexer {
+    store: RocksdbStore,
+    indexer: Indexer<RocksdbStore>,
+}
+
+impl VerifIndexer {
+    /// Open (or create) an indexer store at `path`.
+    pub fn new<P: AsRef<Path>>(path: P, keep_num: u64, prune_interval: u64) -> Self {
+        let store = RocksdbStore::new(&RocksdbStore::default_options(), path);
+        let indexer = Indexer::new(
+            store.clone(),
+            keep_num,
+            prune_interval,
+            None,
+            CustomFilters::new(None, None),
+        );
+        VerifIndexer { store, indexer }
+    }
+
+    /// Index a block.
+    pub fn append(&self, block: &BlockView) -> Result<(), Error> {
+        self.indexer.append(block)
+    }
+
+    /// Roll the tip block back.
+    pub fn rollback(&self) -> Result<(), Error> {
+        self.indexer.rollback()
+    }
+
+    /// Current tip.
+    pub fn tip(&self) -> Result<Option<(BlockNumber, Byte32)>, Error> {
+        self.indexer.tip()
+    }
+
+    /// The query handle RPC uses.
+    pub fn handle(&self) -> IndexerHandle {
+        IndexerHandle::verif_new(self.store.clone())
+    }
+
+    /// All key-value pairs of the store, in key order.
+    pub fn dump(&self) -> Vec<(Vec<u8>, Vec<u8>)> {
+        self.store
+            .iter([], IteratorDirection::Forward)
+            .expect("iterate indexer store")
+            .map(|(k, v)| (k.to_vec(), v.to_vec()))
+            .collect()
+    }
+}
